@@ -637,15 +637,22 @@ macro_rules! wrap_impl_sint {
         $(
             impl Wrap for $T {
                 // https://stackoverflow.com/a/707426
-                fn wrapped_between(mut self, lower: Self, upper: Self) -> Self {
+                fn wrapped_between(self, lower: Self, upper: Self) -> Self {
                     assert!(lower < upper);
                     assert!(lower >= Self::zero());
                     assert!(upper > Self::zero());
                     let range_size = upper - lower /*+ Self::one()*/;
-                    if self < lower {
-                        self += range_size * ((lower-self)/range_size + Self::one());
+                    // Offsets of self and lower within a period, both in [0, range_size):
+                    // no intermediate value leaves the type's range, whatever self is.
+                    let mut a = self % range_size;
+                    if a < Self::zero() {
+                        a += range_size;
                     }
-                    lower + (self - lower) % range_size
+                    let mut d = a - lower % range_size;
+                    if d < Self::zero() {
+                        d += range_size;
+                    }
+                    lower + d
                 }
                 fn wrapped(self, upper: Self) -> Self {
                     assert!(upper > Self::zero());
